@@ -132,7 +132,11 @@ def run_case(case):
     try:
         with Driver(30000) as drv:
             loop = drv.loop
-            loader = c19.CountingLoader() if case['loader'] != 'default' else None
+            # the in-memory persister writes with the configured loader, so a strict loader (own identifier scheme) works; the pickle
+            # persister cannot be given one and writes default identifiers, which the configured loader then has to understand
+            loader = None
+            if case['loader'] != 'default':
+                loader = c19.LenientCountingLoader() if case['persister'] == 'pickle' else c19.CountingLoader()
             persister = {'none': lambda: None, 'mem': lambda: plumpy.InMemoryPersister(loader), 'pickle': lambda: plumpy.PicklePersister(workdir),
                          'failing': lambda: FailingPersister(loader)}[case['persister']]()
             kwargs = {'loop': loop, 'persister': persister, 'loader': loader}
